@@ -54,10 +54,12 @@ pub fn judge(case: &Case) -> Verdict {
             return Verdict::NotJudged("five words".into());
         }
         let valid = valid_model(&w);
-        let exp = if valid { best_model(&w) } else { 0 };
-        return match guard(|| ckc_rs::evaluate::five_cards([w[0], w[1], w[2], w[3], w[4]])) {
-            Err(p) => Verdict::Violated { class: "panic:evaluate.five_cards".into(), expected: format!("{}", exp), observed: format!("panic: {}", p) },
-            Ok(v) if v != exp => Verdict::Violated { class: format!("evaluate.five_cards:{}", if valid { "wrong-value-on-valid-hand" } else { "nonzero-on-invalid-hand" }), expected: format!("{} for {}", exp, show_words(&w)), observed: format!("{}", v) },
+        // the statement: 0 exactly when not valid, otherwise the same value as unvalidated ranking (whether THAT value is
+        // the right poker ordinal is C01's business, not this property's)
+        return match guard(|| (ckc_rs::evaluate::five_cards([w[0], w[1], w[2], w[3], w[4]]), AnyHand::from_words(&w).value())) {
+            Err(p) => Verdict::Violated { class: "panic:evaluate.five_cards".into(), expected: "normal return".into(), observed: format!("panic: {}", p) },
+            Ok((v, _)) if !valid && v != 0 => Verdict::Violated { class: "evaluate.five_cards:nonzero-on-invalid-hand".into(), expected: format!("0 for {}", show_words(&w)), observed: format!("{}", v) },
+            Ok((v, u)) if valid && (v == 0 || Some(v) != u) => Verdict::Violated { class: format!("evaluate.five_cards:{}", if v == 0 { "zero-on-valid-hand" } else { "differs-from-unvalidated" }), expected: format!("the non-zero unvalidated value {:?} for {}", u, show_words(&w)), observed: format!("{}", v) },
             Ok(_) => Verdict::Holds,
         };
     }
@@ -105,15 +107,16 @@ pub fn judge(case: &Case) -> Verdict {
             if n < 5 {
                 return Verdict::NotJudged("no ranking below five slots".into());
             }
-            let exp = if valid { best_model(&w) } else { 0 };
-            match guard(|| h.rank_entry(what)) {
-                Err(p) => Verdict::Violated { class: format!("panic:{}", case.kind), expected: format!("{}", exp), observed: format!("panic: {}", p) },
-                Ok(Some(v)) if v != exp => {
-                    Verdict::Violated { class: format!("{}:{}", case.kind, if valid { "wrong-value-on-valid-hand" } else { "nonzero-on-invalid-hand" }), expected: format!("{} for [{}]", exp, shown), observed: format!("{}", v) }
-                }
-                Ok(Some(v)) if valid => match guard(|| h.value()) {
-                    Ok(Some(u)) if u == v => Verdict::Holds,
-                    other => Verdict::Violated { class: format!("{}:differs-from-unvalidated", case.kind), expected: format!("unvalidated ranking gives the same {}", v), observed: format!("{:?}", other) },
+            // 0 exactly when not valid; otherwise the same (non-zero) value as unvalidated ranking - not compared with the
+            // poker oracle here: a tree whose ranking is wrong but whose validated and unvalidated paths agree violates
+            // C01/C02, not this property
+            match guard(|| (h.rank_entry(what), h.value())) {
+                Err(p) => Verdict::Violated { class: format!("panic:{}", case.kind), expected: "normal return".into(), observed: format!("panic: {}", p) },
+                Ok((Some(v), _)) if !valid && v != 0 => Verdict::Violated { class: format!("{}:nonzero-on-invalid-hand", case.kind), expected: format!("0 for [{}]", shown), observed: format!("{}", v) },
+                Ok((Some(v), u)) if valid && (v == 0 || Some(v) != u) => Verdict::Violated {
+                    class: format!("{}:{}", case.kind, if v == 0 { "zero-on-valid-hand" } else { "differs-from-unvalidated" }),
+                    expected: format!("the non-zero value of unvalidated ranking, {:?}, for [{}]", u, shown),
+                    observed: format!("{}", v),
                 },
                 Ok(_) => Verdict::Holds,
             }
@@ -151,8 +154,8 @@ fn check_hand(acc: &mut Acc, w: &[u32], with_rank: bool) {
             calls += 2;
             let v2 = h.rank_entry("hand_rank_validated.value").unwrap();
             if valid {
-                let exp = best_model(w);
-                bad |= v != exp || v2 != exp || h.value().unwrap() != exp;
+                let u = h.value().unwrap();
+                bad |= v == 0 || v != u || v2 != u;
                 calls += 1;
             } else {
                 bad |= v != 0 || v2 != 0;
@@ -441,19 +444,13 @@ pub fn run(ctx: &Ctx, rep: &mut Report) {
                 monitor::beat(kind, &w64);
                 acc.cases += 1;
                 acc.hist[0] += 1;
-                let exp = oracle().best_by_rules(&cs);
-                // quick tier, seven cards: validity + the validated value against the oracle (that the unvalidated value equals
-                // the oracle on every hand is C02's sweep); everything else: all three ranking forms
-                let lean = n == 7 && !thorough;
-                acc.calls += if lean { 2 } else { 4 };
+                // valid, validated value non-zero and equal to the unvalidated value through every entry point (that this
+                // value is the right poker ordinal is C01's / C02's sweep, not this property's)
+                acc.calls += 4;
                 let ok = matches!(guard(|| {
                     let h = AnyHand::from_words(&w);
-                    if lean {
-                        (h.is_valid(), h.value_validated().unwrap(), exp, exp)
-                    } else {
-                        (h.is_valid(), h.value_validated().unwrap(), h.rank_entry("hand_rank_validated.value").unwrap(), h.value().unwrap())
-                    }
-                }), Ok((true, v1, v2, v3)) if v1 == exp && v2 == exp && v3 == exp);
+                    (h.is_valid(), h.value_validated().unwrap(), h.rank_entry("hand_rank_validated.value").unwrap(), h.value().unwrap())
+                }), Ok((true, v1, v2, v3)) if v1 != 0 && v1 == v2 && v1 == v3);
                 if !ok {
                     let size = AnyHand::size_name(n);
                     let mut found = false;
@@ -473,7 +470,7 @@ pub fn run(ctx: &Ctx, rep: &mut Report) {
         let mut acc = Acc::merged(accs);
         acc.nontrivial = acc.cases;
         rep.guard(&format!("all C(52,{}) valid hands visited", n), acc.cases == crate::engine::enumerate::choose(52, n as u64), format!("{}", acc.cases));
-        rep.add_space(&format!("every valid {}-card hand (canonical order): valid, validated == unvalidated == oracle", n), &acc, t0, "the complete set of hands that must NOT rank 0");
+        rep.add_space(&format!("every valid {}-card hand (canonical order): valid, validated == unvalidated != 0", n), &acc, t0, "the complete set of hands that must NOT rank 0");
     }
 
     // (3c) call histories over a small alphabet of hands (valid, duplicate, corrupt, blank) and observations
